@@ -41,7 +41,9 @@ func (c *Ctx) Bad(rule, key, pos, msg string)       { c.add(rule, key, "violated
 func (c *Ctx) Undecided(rule, key, pos, msg string) { c.add(rule, key, "undecided", pos, msg) }
 func (c *Ctx) Missing(rule, key, msg string)        { c.add(rule, key, "unresolved-anchor", "-", msg) }
 func (c *Ctx) Info(rule, key, pos, msg string)      { c.add(rule, key, "info", pos, msg) }
-func (c *Ctx) Note(format string, a ...interface{}) { c.Notes = append(c.Notes, fmt.Sprintf(format, a...)) }
+func (c *Ctx) Note(format string, a ...interface{}) {
+	c.Notes = append(c.Notes, fmt.Sprintf(format, a...))
+}
 func (c *Ctx) Stat(k string, n int) {
 	if c.Stats == nil {
 		c.Stats = map[string]int{}
